@@ -337,7 +337,8 @@ fn run(cfg: &Config, keys: &Keys, dir: &Path, seed: u64) -> (Vec<Violation>, Str
             }
             Err(e) => {
                 let s = e.to_string();
-                let kind: String = s.split(|c: char| c == ':' || c == '`').next().unwrap_or("").trim().chars().take(40).collect();
+                // message with ids / paths collapsed
+                let kind: String = s.split_whitespace().map(|w| if w.len() > 20 || w.contains('/') { "#" } else { w }).collect::<Vec<_>>().join(" ").chars().take(60).collect();
                 format!("err({kind}):removed-namespaces={removed}")
             }
         };
